@@ -150,7 +150,11 @@ def build_lib(flavour, variant="", extra_flags=(), per_file_flags=None, exclude=
 def build_exe(name, sources, flavour, lib_objs, extra_flags=(), link_flags=(), variant=""):
     fl = BASE_FLAGS + FLAVOURS[flavour] + list(extra_flags)
     odir = os.path.join(BUILD, flavour + (("-" + variant) if variant else ""), "exe", name)
-    jobs = [(s, os.path.join(odir, os.path.basename(s) + ".o"), fl) for s in sources]
+    # a source may be given as (path, [extra flags for this file only])
+    jobs = []
+    for s in sources:
+        sp, sf = (s, []) if isinstance(s, str) else s
+        jobs.append((sp, os.path.join(odir, os.path.basename(sp) + ".o"), fl + list(sf)))
     objs = compile_many(jobs)
     exe = os.path.join(odir, name)
     key = exe + ".key"
